@@ -14,11 +14,11 @@ LEVEL_TEXT = ('partial. Lean 4 theorems about the deterministic wrappers around 
               'non-negative integer; both shot-noise methods reject exactly the frames with a negative or an unrepresentably large count; '
               'read noise is additive and signal-independent; a dark frame without pattern noise is floor(rate); a power-spectrum '
               'surface is zero outside its mask with mean square exactly rms^2 over its non-zero pixels for every mask shape; '
-              'cosmic-ray frames are non-negative; seeded functions depend on nothing but arguments and seed (regenerated effect '
+              'the accumulation of non-negative ray deposits is non-negative (tie to cosmic_rays sampled); power_spectrum grid/filter/noise shapes as the source builds them (regenerated); seeded functions depend on nothing but arguments and seed (regenerated effect '
               'table). Distribution moments and "different seeds differ" are sampled assumption checks, not proved.')
 LEVEL_NOTE = ('partial by nature: means/variances and seed sensitivity are properties of NumPy\'s generators (unproven clauses, sampled).')
 TECHNIQUE = 'Lean 4 proof (ordered-field algebra, Int.floor, decide on a regenerated effect table) + differential correspondence on identical draws'
-GEN = ['Effects']
+GEN = ['Effects', 'PowerSpectrum']
 OPS = ['C18']
 RULE = ('cases: rule07_dark_current (fpn 0 / > 0, explicit seed, repeated), read noise on float/int/uint frames, power_spectrum with float/int/bool masks; shot noise (poisson/gaussian; frames 1..12 x 1..12, non-square, float and integer counts 0..1e6, frames with a negative or '
         'a > 9.22e18 entry), read noise, dark current (fpn 0 and > 0, scalar and array shapes), power_spectrum on elliptical/annular '
@@ -27,12 +27,20 @@ RULE = ('cases: rule07_dark_current (fpn 0 / > 0, explicit seed, repeated), read
 TRUSTED = ['np.random.Generator.poisson/normal/lognormal/standard_normal are pure functions of the generator state and parameters; '
            'normal(loc, scale) = loc + scale * standard_normal() drawn in C order; Poisson draws are non-negative integers and '
            'poisson raises ValueError for lam < 0 or lam > 9.223372006484771e18',
-           'the noise filter of power_spectrum (PSD grid, fftshift, fft2/ifft2) is re-stated in the harness (np.fft trusted)']
+           'np.fft and the PSD noise filter of power_spectrum are not modelled: only its index bookkeeping (regenerated, Gen/PowerSpectrum.lean) and '
+           'the final mask-and-normalise step are']
 UNPROVEN = ['shot noise has mean and variance equal to the signal; read noise has zero mean and the requested standard deviation: '
             'distributional facts about NumPy generators, sampled with 6-sigma margins (assumption checks)',
             'different seeds give different draws: sampled',
-            'cosmic_rays: only the non-negativity/shape envelope is modelled; the ray tracing is not']
-ASSUMPTIONS = ['Gaussian shot noise is exercised in its documented regime (counts > 1000, or exactly 0): below it the normal draw can be negative '
+            'cosmic_rays: the ray tracing is not modelled. Sampled: the frame is the running sum of the recorded per-ray frames into zeros(shape) '
+            '(op st.cosmic, exact), every ray frame has the requested shape and is non-negative; cosmic_accumulation_nonneg is a theorem about that '
+            'accumulation only',
+            'the spectral content (PSD) of the power_spectrum surface: not claimed by the property, not checked']
+ASSUMPTIONS = ['identical-draw comparisons assume one vectorised Generator call per function in C order (shot_noise: poisson(img) / normal(img, sqrt(img)); '
+               'read_noise: normal(0, e, shape); dark_current/rule07: lognormal(1, f, shape)) — an equivalent but differently ordered draw '
+               'would be reported although the documented contract (determinism in the seed) still holds; power_spectrum and cosmic_rays '
+               'are compared without any assumption on the draws',
+               'Gaussian shot noise is exercised in its documented regime (counts > 1000, or exactly 0): below it the normal draw can be negative '
                '(shot_gaussian_support states the exact condition z >= -sqrt(count))',
                'power_spectrum_rms_exact is over the non-zero pixels of the masked noise (= the mask when no noise sample is exactly 0)',
                ]
@@ -175,9 +183,20 @@ def impl(c):
                 np.random.seed(c['state'])
                 area = c['shape'][0] * 5e-6 * c['shape'][1] * 5e-6
                 nr = [0.3, 3.0, 25.0][c['state'] % 3]          # expected number of rays (below 1: the Bernoulli branch)
-                out = D.cosmic_rays(tuple(c['shape']), (5e-6, 5e-6, 3e-6), c['ts'], rate=nr / (area * c['ts']))
-                np.random.set_state(np.random.get_state())
-                return {'shape': list(out.shape), 'min': float(out.min()), 'finite': bool(np.all(np.isfinite(out))), 'hits': int(np.count_nonzero(out))}
+                rays = []
+                orig = D._cosmic_ray
+                def rec(*a, **k):
+                    r = orig(*a, **k); rays.append(np.array(r, copy=True)); return r
+                D._cosmic_ray = rec
+                try: out = D.cosmic_rays(tuple(c['shape']), (5e-6, 5e-6, 3e-6), c['ts'], rate=nr / (area * c['ts']))
+                finally: D._cosmic_ray = orig
+                pix, amt = [], []
+                for r in rays:
+                    nzp = np.flatnonzero(r)
+                    pix += [int(p) for p in nzp]; amt += [float(v) for v in r.ravel()[nzp]]
+                return {'shape': list(out.shape), 'min': float(out.min()), 'finite': bool(np.all(np.isfinite(out))), 'hits': int(np.count_nonzero(out)),
+                        'out': vlib.fl(out.ravel()), 'pixel': pix, 'amount': vlib.fl(amt), 'nrays': len(rays),
+                        'ray_shapes_ok': bool(all(list(r.shape) == c['shape'] for r in rays)), 'ray_min': float(min([r.min() for r in rays], default=0.0))}
             elif k == 'moments':
                 N = 200
                 lam = c['level']
@@ -193,20 +212,6 @@ def impl(c):
     return res
 
 # ------------------------------------------------------------------------------------------ model requests
-def _filtered_noise(c):
-    """the unit-variance filtered noise of power_spectrum, re-stated from its documentation (Sidick 2009 PSD filter)"""
-    mk = _mask(c); n, m = mk.shape
-    yy, xx = np.mgrid[0:n, 0:m]
-    yy = (yy - (np.floor(n / 2) + 1)) / n; xx = (xx - (np.floor(m / 2) + 1)) / m
-    dr = np.sqrt(xx * xx + yy * yy)
-    hp = c['hpf'] * c['px'] / np.sqrt(m ** 2 + n ** 2)
-    with np.errstate(divide='ignore'):
-        psd = 1 / (1 + (dr / hp) ** c['exp'])
-    psd[dr == 0] = 0; psd = psd / np.sum(psd)
-    H = np.fft.fftshift(np.sqrt(psd))
-    noise = np.random.default_rng(c['seed']).normal(size=[n, m])
-    return np.real(np.fft.ifft2(np.fft.fft2(noise) * H)) * np.sqrt(m * n)
-
 def requests(c, io):
     k = c['kind']
     if k == 'shot':
@@ -232,8 +237,12 @@ def requests(c, io):
         n = int(np.prod(sh))
         fpn = np.random.default_rng(c['seed']).lognormal(mean=1.0, sigma=c['fpn'], size=sh).ravel() if c['fpn'] > 0 else np.ones(n)
         return [{'op': 'st.dark', 'rate': vlib.fbits(c['rate']), 'fpn_factor': vlib.fbits(c['fpn']), 'fpn': vlib.fl(np.atleast_1d(fpn)), 'n': n}]
-    if k == 'power':
-        return [{'op': 'st.power', 'x': vlib.fl(_filtered_noise(c).ravel()), 'mask': vlib.fl(_mask(c).ravel()), 'rms': vlib.fbits(c['rms'])}]
+    if k == 'power' and 'out' in io:
+        # distribution-free tie: the returned map must be a fixed point of the model's mask-and-normalise step (the noise filter and the
+        # order of the draws are NOT part of the comparison)
+        return [{'op': 'st.power', 'x': io['out'], 'mask': vlib.fl(_mask(c).ravel()), 'rms': vlib.fbits(c['rms'])}]
+    if k == 'cosmic' and 'out' in io:
+        return [{'op': 'st.cosmic', 'pixel': io['pixel'], 'amount': io['amount'], 'n': int(np.prod(c['shape']))}]
     return []
 
 def compare(c, io, mo):
@@ -325,6 +334,8 @@ def oracle(c, io):
         return None
     if k == 'cosmic':
         if 'exc' in io: return f"cosmic_rays raised {io['msg']}"
+        if not io['ray_shapes_ok']: return 'a ray frame does not have the requested shape'
+        if io['ray_min'] < 0: return f"a ray deposited a negative charge ({io['ray_min']})"
         if io['shape'] != c['shape']: return f"cosmic-ray frame shape {io['shape']}"
         if io['min'] < 0 or not io['finite']: return f"cosmic-ray frame has negative or non-finite values (min {io['min']})"
         return None
